@@ -13,7 +13,7 @@ pub static DEF: PropDef = PropDef {
     level: "exploration",
     total: |t| t.pick(256, 3200),
     run,
-    rule: "(a) bounded depth-first enumeration of executions of a real TCB pair (both open styles): at every state each in-flight segment may be delivered, dropped (<=2) or duplicated (<=1), a 101 ms timer may fire (<=2), either application may close (once each, in every reachable state) or write 1/3000 bytes (once each); emitted segments enter the network automatically; visited states are hashed on both snapshots + in-flight multiset; every call is checked by the transition/sync/data-before-FIN monitor and leaves are completed over a fair network to check release. (b) random deeper schedules with writes up to 3000 bytes queued or in flight at close, old duplicate SYN of an earlier incarnation injected, then closes and a fair network. Non-trivial = both endpoints reached a closing state; distinct by final monitor trace hash. Evidence lists the distinct RFC 9293 edges exercised.",
+    rule: "(a) bounded depth-first enumeration of executions of a real TCB pair (both open styles): at every state each in-flight segment may be delivered, dropped (<=2) or duplicated (<=1), a 101 ms timer may fire (<=2), either application may close (once each, in every reachable state) or write 1/3000 bytes (once each); emitted segments enter the network automatically; visited states are hashed on both snapshots + in-flight multiset; every call is checked by the transition/sync/data-before-FIN monitor and leaves are completed over a fair network to check release. (b) random deeper schedules with writes up to 3000 bytes queued or in flight at close, old duplicate SYN of an earlier incarnation injected (initial sequence number 1..200 or 1000..100000 below or above the current one), then closes and a fair network. Non-trivial = both endpoints reached a closing state; distinct by final monitor trace hash. Evidence lists the distinct RFC 9293 edges exercised.",
     assumptions: &[
         "applications read eagerly (after every arrival) so 'delivered' means handed to the application by receive()",
         "release bound: 40 fair rounds + 2*MSL (MSL = 1 s in this stack) of simulated time after the last close",
@@ -522,7 +522,7 @@ fn random_schedule(env: &Env, k: u64, case: u64, rng: &mut impl Rng, d: &mut Del
     let steps = rng.gen_range(5..80);
     let mut drops = 0;
     let mut dups = 0;
-    let inject_old_syn = style == OpenStyle::ActivePassive && rng.chance(1, 8);
+    let inject_old_syn = style == OpenStyle::ActivePassive && rng.chance(1, 5);
     if step_check(&mut p, &mut mon, d, &actions, &params).is_some() {
         return;
     }
@@ -531,7 +531,9 @@ fn random_schedule(env: &Env, k: u64, case: u64, rng: &mut impl Rng, d: &mut Del
         let r = rng.gen_range(0..100);
         if inject_old_syn && stepi == 1 {
             // an old duplicate SYN from an earlier incarnation of A reaches B before the real one
-            let old_iss = ia.wrapping_sub(rng.gen_range(1000..100000));
+            // its initial sequence number may lie on either side of the current one, near or far
+            let dist = if rng.chance(1, 2) { rng.gen_range(1..200u32) } else { rng.gen_range(1000..100000u32) };
+            let old_iss = if rng.chance(1, 2) { ia.wrapping_sub(dist) } else { ia.wrapping_add(dist) };
             let t = elvis_core::protocols::tcp::verif::Tcb::open(endpoints(A), old_iss, mtu);
             let mut t = t;
             for seg in t.segments() {
